@@ -1,7 +1,7 @@
 (** * Mesh runner: the Triangulation model on primitive floats against the crate, bit-exact.
     - [CFP]: from_polygon on a polygon that the model rebuilds itself from the pushed points
-             (push / close / cut_hole): outcome class and the complete piece list;
-    - [CRF]: mesh_polygon (from_polygon + refine on fuel): outcome class and the complete piece list;
+             (push / close / cut_hole): outcome class, the complete piece list, and the list returned by get_trilist;
+    - [CRF]: mesh_polygon (from_polygon + refine on fuel): outcome class, the complete piece list, get_trilist;
     - [CHI]: histories of hook-driven steps: the complete per-slot state after every step (sent as deltas:
              the slots named in the delta must equal the given pieces, all other slots must be unchanged);
     - [CSkip]: a case whose result is too large for the model run (oracles only). *)
@@ -68,6 +68,13 @@ Fixpoint pieces_eqb (ts : list (TriPiece K)) (ps : list piece) : bool :=
 Definition mesh_eqb (M : Mesh K) (ps : list piece) (nv : N) : bool :=
   pieces_eqb (tris M) ps && N.eqb (N.of_nat (nvalid M)) nv.
 
+(** [Triangulation3D::get_trilist]: the triangles handed to the user, each as [a b c normal area] (13 numbers), against the
+    model's [get_trilist] *)
+Definition tri_floats (t : Tri K) : list spec_float :=
+  sfv (ta t) ++ sfv (tb t) ++ sfv (tc t) ++ sfv (tnormal t) ++ [Prim2SF (tarea t)].
+Definition trilist_eqb (M : Mesh K) (e : list spec_float) : bool :=
+  sfl_eqb (flat_map tri_floats (get_trilist M)) e.
+
 (** the slots named in the delta equal the given pieces, every other slot is unchanged *)
 Fixpoint delta_ok (old new : list (TriPiece K)) (i : N) (delta : list (N * piece)) : bool :=
   match new with
@@ -121,39 +128,41 @@ Fixpoint run_steps (M : Mesh K) (steps : list (opc * expc)) (nerr : N) : N :=
 
 Inductive mcase :=
 | CFP (outer : list spec_float) (holes : list (list spec_float)) (build out : N) (pieces : list piece) (nv : N)
+      (trilist : list spec_float)
 | CRF (outer : list spec_float) (holes : list (list spec_float)) (build : N) (max_area max_ar : spec_float) (fuel : nat)
-      (out : N) (pieces : list piece) (nv : N)
+      (out : N) (pieces : list piece) (nv : N) (trilist : list spec_float)
 | CHI (outer : list spec_float) (holes : list (list spec_float)) (build init_out : N) (init : list piece) (nv : N)
       (steps : list (opc * expc))
 | CSkip (why : N).
 
-(** path tags: CFP 1 build refused, 2 Ok without holes, 3 Ok with holes, 4 Err, 5 Panic;
-    CRF 10 build refused, 11 Ok, 12 Err, 13 Panic, 99 model out of fuel;
+(** path tags: CFP 1 build refused, 2 Ok without holes, 3 Ok with holes (2, 3: the complete piece list AND the list returned
+    by get_trilist agree with the model's), 4 Err, 5 Panic;
+    CRF 10 build refused, 11 Ok (pieces and get_trilist agree), 12 Err, 13 Panic, 99 model out of fuel;
     CHI 20 build/initial mesh refused, 21.. = 21 + number of non-Ok steps (capped at 29), 99 out of fuel; CSkip 90 + why *)
 Definition chk (c : mcase) : N :=
   match c with
   | CSkip w => (90 + w)%N
-  | CFP outer holes build out pieces nv =>
+  | CFP outer holes build out pieces nv trilist =>
     match build_poly outer holes with
     | Ok P =>
       if negb (N.eqb build 0) then 0%N else
       let r := from_polygon P in
       if negb (cls_eqb (cls r) out) then 0%N else
       match r with
-      | Ok M => if mesh_eqb M pieces nv then (match holes with [] => 2 | _ => 3 end)%N else 0%N
+      | Ok M => if mesh_eqb M pieces nv && trilist_eqb M trilist then (match holes with [] => 2 | _ => 3 end)%N else 0%N
       | Err _ => 4%N
       | Panic _ => 5%N
       end
     | r => if cls_eqb (cls r) build && negb (N.eqb build 0) then 1%N else 0%N
     end
-  | CRF outer holes build max_area max_ar fuel out pieces nv =>
+  | CRF outer holes build max_area max_ar fuel out pieces nv trilist =>
     match build_poly outer holes with
     | Ok P =>
       if negb (N.eqb build 0) then 0%N else
       let r := mesh_polygon fuel P (SF2Prim max_area) (SF2Prim max_ar) in
       match r with
       | Ok (_, ROutOfFuel) => 99%N
-      | Ok (M, RDone) => if N.eqb out 0 && mesh_eqb M pieces nv then 11%N else 0%N
+      | Ok (M, RDone) => if N.eqb out 0 && mesh_eqb M pieces nv && trilist_eqb M trilist then 11%N else 0%N
       | Err _ => if cls_eqb (cls r) out then 12%N else 0%N
       | Panic _ => if cls_eqb (cls r) out then 13%N else 0%N
       end
